@@ -488,6 +488,32 @@ pub fn run(name: &str) -> Option<bool> {
             let scratch = std::env::temp_dir().join(format!("bpaf-verif-stub-{}", std::process::id()));
             crate::props::c15::bash_stub_executes_typed_text(&stub, &scratch)?.0
         }
+        // C04: a completion request without any word (only the revision item) and a switch whose
+        // environment variable is set: `items.len() - 1` underflowed
+        "completion_without_words_env_switch_underflow" => {
+            let var = "BPAF_VERIF_WITNESS_F28";
+            std::env::set_var(var, "1");
+            let o = OptSpec::plain(Spec::Seq(vec![item(
+                1,
+                Names {
+                    shorts: vec![],
+                    longs: vec!["flag".to_string()],
+                    envs: vec![var.to_string()],
+                },
+                Leaf::Switch,
+            )]));
+            let p = build_options(&o);
+            let (out, _, _) = run_full(
+                &p,
+                &[],
+                &RunOpts {
+                    comp: Some(0),
+                    ..RunOpts::default()
+                },
+            );
+            std::env::remove_var(var);
+            matches!(out, Outcome::Panic(_))
+        }
         _ => return None,
     })
 }
